@@ -107,8 +107,26 @@ def map_cases(draw):
     if draw(st.integers(0, 4)) == 0:  # small numbers collide with each other and with prefixes
         node, child, sub = draw(st.integers(0, 1)), draw(st.integers(0, 1)), draw(st.integers(0, 1))
     levels = [node, child, cmd, ack, sub]
+    # commands that went through the SAME gateway just before: relatives of the tested one (a header whose
+    # decimal text is a prefix / extension of it, the identical header, one field changed)
+    earlier = []
+    for _ in range(draw(st.integers(0, 3))):
+        rel = list(levels)
+        how = draw(st.sampled_from(["sub-prefix", "sub-extend", "same", "node-prefix", "ack", "child-extend"]))
+        if how == "sub-prefix":
+            rel[4] = int(str(sub)[:1])
+        elif how == "sub-extend":
+            rel[4] = min(56, sub * 10 + draw(st.integers(0, 9)))
+        elif how == "node-prefix":
+            rel[0] = int(str(node)[:1])
+        elif how == "ack":
+            rel[3] = 1 - ack
+        elif how == "child-extend":
+            rel[1] = min(255, child * 10 + draw(st.integers(0, 9)))
+        earlier.append({"levels": rel, "payload": draw(payloads())})
     return {
         "kind": "map",
+        "earlier": earlier,
         "levels": levels,
         "payload": draw(payloads()),
         "in_prefix": draw(prefixes(levels)),
@@ -227,6 +245,16 @@ def check_map(case, stats=None):
     payload = case["payload"]
     command = ";".join(str(x) for x in levels) + ";" + payload + "\n"
     tr = gw.tasks.transport
+    for prev in case.get("earlier", []):
+        # earlier traffic through the same gateway object, both directions; its own mapping is not judged here
+        cmd0 = ";".join(str(x) for x in prev["levels"]) + ";" + prev["payload"] + "\n"
+        try:
+            tr.send(cmd0)
+            tr.recv(case["in_prefix"] + "/" + "/".join(str(x) for x in prev["levels"]), prev["payload"], 0)
+        except Exception as exc:  # pylint: disable=broad-except
+            raise Violation(f"send_raises.{type(exc).__name__}", case, f"earlier traffic {cmd0!r} raised {exc!r}") from exc
+        del rec["pubs"][:]
+        gw.tasks.queue.clear()
     try:
         tr.send(command)
     except Exception as exc:  # pylint: disable=broad-except
